@@ -240,14 +240,18 @@ def _set(obj, path, val):
     return obj
 
 
-def minimise(mod, case, sig, max_runs=3000, deadline=None):
-    """Greedy structural shrink keeping the same violation signature."""
+def minimise(mod, case, sig, max_runs=3000, deadline=None, time_cap=25.0):
+    """Greedy structural shrink keeping the same violation signature (at most `time_cap` seconds)."""
     runs = 0
+    cap = time.time() + time_cap
+    deadline = cap if deadline is None else min(deadline, cap)
     if sig == "hang":          # every probe would cost a full timeout
         return case
 
     def fails(c):
         nonlocal runs
+        if time.time() > deadline or runs >= max_runs:
+            return False
         runs += 1
         try:
             _, bad = execute(mod, c)
@@ -259,6 +263,8 @@ def minimise(mod, case, sig, max_runs=3000, deadline=None):
         case = json.loads(json.dumps(case))
     except TypeError:
         return case
+    if len(canon(case)) > 20000:          # very large cases: every probe is expensive, settle for a coarse reduction
+        max_runs = min(max_runs, 400)
     improved = True
     while improved and runs < max_runs and (deadline is None or time.time() < deadline):
         improved = False
